@@ -23,9 +23,9 @@ BIG = [-1, -2, 2**63, 2**63 - 1, 2**64 - 1 - 3, 2**32, 2**64 - 4]
 def gen_more(out):
     """inplace_string (every guarded operation at and beyond its boundary, plus the clamping ones that must never fire)
     and the remaining components"""
-    for cap in (4, 20):
+    for (flavour, cap) in (("str", 4), ("str", 15), ("str", 16), ("str", 20), ("wstr", 15), ("wstr", 16)):
         for k in sorted({0, 1, 2, cap - 1, cap}):
-            S = f"str {cap} {k}"
+            S = f"{flavour} {cap} {k}"
             room = cap - k
             for o in ("front", "cfront", "back", "cback", "pb", "pop", "clear"):
                 out.append(f"{S} {o}")
@@ -57,7 +57,7 @@ def gen_more(out):
             for n in sorted(x for x in {0, 1, room, room + 1, cap} if x <= cap):
                 out += [f"{S} app_str {n}", f"{S} pluseq_str {n}"]
             for n in sorted({0, 1, room, room + 1, 26}):
-                out.append(f"{S} app_rng {n}")
+                out += [f"{S} app_rng {n}", f"{S} app_rng_rev {n}"]
             for ls in sorted({0, 3, cap}):
                 for ps in sorted({0, 1, ls, ls + 1}) + [-1]:
                     for c in sorted({0, 1, room, room + 1}) + [-1]:
@@ -68,6 +68,10 @@ def gen_more(out):
                         out += [f"{S} app_view_sub {ls} {ps} {c}", f"{S} asg_view_sub {ls} {ps} {c}"]
     for d in range(-4, 9):
         out.append(f"sset {d}")
+    for o in ("pb", "eb", "pop", "fr", "bk", "cfr", "cbk"):
+        out.append(f"vec0 0 {o}")
+    for n in (0, 1, 2, -1, 2**63):
+        out += [f"vec0 0 rsz {n}", f"vec0 0 at {n}"]
     for which in ("strncpy", "wcscpy", "wcsncpy"):
         for dn in (0, 1):
             for sn in (0, 1):
@@ -108,31 +112,75 @@ def gen_more(out):
             out.append("fmt " + " ".join(str(c) for c in (ln,) + chars))
 
 
+STR_OPS = {  # op -> argument kinds: p = position, c = count, l = source length (<= 26), m = source length <= cap
+    "idx": "p", "cidx": "p", "ins_fill": "pk", "ins_cstr": "pl", "ins_ptr": "pl", "ins_str": "pm", "ins_view": "pl",
+    "ins_str_sub": "pmpc", "ins_view_sub": "plpc", "era": "pc", "rep": "pcm", "rep5": "pcmpc", "rep_ptr": "pcl", "rep_cstr": "pcl",
+    "substr": "pc", "app_view_sub": "lpc", "asg_view_sub": "lpc", "app_str_sub": "mpc", "ctor_ptr": "c", "ctor_fill": "c",
+    "asg_fill": "c", "asg_ptr": "c", "app_fill": "c", "resize": "c", "app_ptr": "c", "app_str": "m", "app_rng": "l", "pluseq_str": "m",
+}
+
+
+def gen_random(out, rng, n):
+    """seeded random probes: arguments drawn from the boundary pool of the state (incl. the values at which pointer
+    arithmetic on 2- and 4-byte characters wraps) and from all 64-bit values"""
+    ops = sorted(STR_OPS)
+    for _ in range(n):
+        flavour, cap = rng.choice((("str", 4), ("str", 15), ("str", 16), ("str", 20), ("wstr", 15), ("wstr", 16)))
+        k = rng.choice((0, 1, cap // 2, cap - 1, cap))
+        pool = [0, 1, 2, k - 1, k, k + 1, cap - k, cap - k + 1, cap, cap + 1, 2**61, 2**62, 2**62 + k, 2**63, 2**63 + k + 1,
+                2**64 - 1, 2**64 - 2, 2**64 - k, 2**64 - 1 - k, 2**32, 2**31, rng.getrandbits(64), rng.getrandbits(64), rng.getrandbits(16)]
+        pool = [x for x in pool if 0 <= x < 2**64]
+        o = rng.choice(ops)
+        args = []
+        for kind in STR_OPS[o]:
+            if kind == "l":
+                args.append(rng.choice((0, 1, 2, 3, cap, 26)))
+            elif kind == "m":
+                args.append(rng.choice((0, 1, 2, 3, cap)))
+            elif kind == "k":
+                args.append(rng.choice((0, 1, 2, 5)))
+            else:
+                args.append(rng.choice(pool))
+        out.append(f"{flavour} {cap} {k} {o} " + " ".join(str(a) for a in args))
+    for _ in range(n // 4):
+        sz = rng.randrange(0, 5)
+        a = rng.choice([0, 1, sz, sz + 1, 2**62, 2**63, 2**64 - 1, 2**64 - sz, 2**64 - 1 - sz, rng.getrandbits(64)])
+        b = rng.choice([0, 1, sz, sz + 1, 2**62, 2**63, 2**64 - 1, 2**64 - sz, 2**64 - a if a else 0, rng.getrandbits(64)])
+        a %= 2**64
+        b %= 2**64
+        o = rng.choice(("span idx", "span first", "span last", "span subspan", "sv idx", "sv rmp", "sv rms", "sv substr", "sv copy"))
+        t, oo = o.split()
+        out.append(f"{t} {sz} {oo} {a} {b}")
+
+
 def gen(tier, rng):
     out = []
     gen_more(out)
+    gen_random(out, rng, 4000 if tier == "quick" else 150000)
     # static_vector<int,4> with k elements
     for k in range(0, 5):
         sz = k
         room = 4 - k
-        out += [f"vec {k} pb", f"vec {k} eb", f"vec {k} pop", f"vec {k} fr", f"vec {k} bk"]
+        out += [f"vec {k} pb", f"vec {k} eb", f"vec {k} pop", f"vec {k} fr", f"vec {k} bk", f"vec {k} cfr", f"vec {k} cbk"]
+        out += [f"vecnt {k} {o}" for o in ("pb", "eb", "pop", "fr", "bk", "cfr", "cbk")] + [f"vecnt {k} rsz {n}" for n in (0, 3, 4, 5, -1)]
+        out += [f"vecnt {k} at {i}" for i in (0, k, -1)]
         for pos in [-2, -1] + list(range(0, sz + 3)):
             out += [f"vec {k} icr {pos}", f"vec {k} irv {pos}", f"vec {k} emp {pos}", f"vec {k} era {pos}"]
             for n in list(range(0, room + 3)) + BIG + [-sz, -sz - 1, 2**64 - sz, 2**64 - sz + room + 1]:
                 out.append(f"vec {k} inn {pos} {n}")
-            for n in range(0, room + 3):
+            for n in [-2, -1] + list(range(0, room + 3)):
                 out.append(f"vec {k} irg {pos} {n}")
-            for l in range(pos, sz + 3):
+            for l in range(pos - 2, sz + 3):
                 out.append(f"vec {k} err {pos} {l}")
         for n in list(range(0, 7)) + BIG:
             out += [f"vec {k} rsz {n}", f"vec {k} rsv {n}", f"vec {k} asn {n}", f"vec {k} ctor_n {n}", f"vec {k} ctor_nv {n}"]
-        for n in range(0, 8):
+        for n in range(-2, 8):
             out += [f"vec {k} asr {n}", f"vec {k} ctor_rg {n}"]
         for i in list(range(0, sz + 3)) + BIG:
             out += [f"vec {k} at {i}", f"vec {k} cat {i}"]
     for cap in (0, 4):
         for k in range(0, cap + 1):
-            for o in ("upb", "ueb", "pop", "fr", "bk", "tpb"):
+            for o in ("upb", "ueb", "upbc", "pop", "fr", "bk", "cfr", "cbk", "tpb"):
                 out.append(f"ivec {cap} {k} {o} 0")
             for i in list(range(0, k + 3)) + BIG:
                 out += [f"ivec {cap} {k} at {i}", f"ivec {cap} {k} cat {i}"]
@@ -145,13 +193,13 @@ def gen(tier, rng):
             for b in list(range(0, n + 3)) + [-1, -2, 2**64 - 1 - a if a >= 0 else 5, 2**63]:
                 out += [f"span {n} subspan {a} {b}", f"sv {n} substr {a} {b}", f"sv {n} copy {b} {a}"]
     for e in (0, 1):
-        for o in ("deref", "cderef", "rderef", "ref"):
+        for o in ("deref", "cderef", "rderef", "crderef", "ref"):
             out.append(f"opt {e} {o}")
-        for o in ("deref", "cderef", "error", "cerror"):
+        for o in ("deref", "cderef", "rderef", "crderef", "error", "cerror", "rerror", "crerror"):
             out.append(f"exp {e} {o}")
     for a in range(0, 3):
         for i in range(0, 3):
-            out += [f"var {a} sub {i}", f"var {a} uget {i}"]
+            out += [f"var {a} {o} {i}" for o in ("sub", "csub", "rsub", "crsub", "uget", "cuget", "ruget", "cruget")]
     for w in (8, 32, 64, 33):
         for x in (5, -128, 0):
             for y in (0, 1, -1):
@@ -163,15 +211,15 @@ def gen(tier, rng):
             for pos in [0, 1, w - 1, w, w + 1, 2 * w, 255, 2**w - 1]:
                 out.append(f"bit {which} {w} 5 {pos}")
     for n in (1, 10, 64, 65):
-        for which in ("set", "reset", "flip", "idx", "cidx", "test", "uset", "ureset", "uflip", "utest", "bidx"):
+        for which in ("set", "reset", "flip", "idx", "cidx", "test", "uset", "ureset", "uflip", "utest", "bidx", "cbidx"):
             for pos in [0, n - 1, n, n + 1, 64, 65, 128] + BIG:
                 out.append(f"bitset {n} {which} {pos}")
     for i in [0, 1, 2, 3, 4] + BIG:
-        out.append(f"arr {i}")
+        out += [f"arr {i}", f"carr {i}"]
     for layout in ("left", "right"):
         for r in [0, 1, 2, 3] + BIG:
             out.append(f"stride {layout} {r}")
-    for which in ("strcpy", "strchr", "memmove"):
+    for which in ("strcpy", "strchr", "strchr_m", "memmove"):
         for dn in (0, 1):
             for sn in (0, 1):
                 out.append(f"cstr {which} {dn} {sn}")
